@@ -44,7 +44,8 @@ PROPS = {
         runs=[chain('settle', 'settlement', 40, 1200, 'check_C01'),
               chain('imported', 'imported', 40, 1200, 'check_C01'),
               chain('faults', 'faults', 24, 800, 'check_C01'),
-              chain('erc20', 'erc20', 24, 800, 'check_C01')],
+              chain('erc20', 'erc20', 24, 800, 'check_C01'),
+              chain('many', 'many', 4, 120, 'check_C01', shards_quick=4)],
         fields=[3, 5, 15, 16, 20, 21],
         rule=CHAIN_RULE, assumptions=SETTLE_ASSUME),
     'C02': dict(
@@ -68,7 +69,8 @@ PROPS = {
         theorems=['C11_prefix', 'C11_queue_order', 'C11_failure_defers', 'C11_block_completes', 'C11_recovers'],
         runs=[chain('faults', 'faults', 48, 1600, 'check_C11'),
               chain('imported', 'imported', 40, 1200, 'check_C11'),
-              chain('erc20', 'erc20', 32, 1000, 'check_C11')],
+              chain('erc20', 'erc20', 32, 1000, 'check_C11'),
+              chain('many', 'many', 6, 200, 'check_C11', shards_quick=6)],
         fields=[3, 5, 16, 21],
         rule=CHAIN_RULE + "; fault plans fail the k-th payout back-end call (bank send / SBT mint) of an end-block; the erc20 profile pays token-pair tenants through x/erc20 ConvertERC20 with treasuries that run short of tokens and are topped up by mints",
         assumptions=SETTLE_ASSUME),
@@ -161,7 +163,8 @@ PROPS = {
                                    "block gas limit -1 (as the suite runs); with a finite limit baseapp skips transactions once the block gas meter is exhausted"]),
     'C17': dict(
         theorems=['C17_settlement_roundtrip', 'C17_oracle_roundtrip', 'C17_roundtrip_after_any_history', 'C17_genesis_hypotheses'],
-        runs=[chain('roundtrip', 'roundtrip', 48, 1600, 'check_C17')],
+        runs=[chain('roundtrip', 'roundtrip', 48, 1600, 'check_C17'),
+              chain('manyrt', 'manyrt', 4, 120, 'check_C17', shards_quick=4)],
         fields=[32, 33, 34, 36, 37, 38, 39, 40, 44, 30],
         rule=CHAIN_RULE + "; after the last block the application state is exported (ExportAppStateAndValidators), a fresh application is initialised from the export at the next height, and the two modules are observed there",
         assumptions=["the other modules' genesis round trip (auth, bank, staking, evm, ...) is trusted; the export is taken at a block boundary"]),
